@@ -38,7 +38,9 @@ RULE = ("well-bracketed programs generated from the seed: nesting depth <= 4 (qu
         "pop_default / load_default / peek interleaved, library calls (tools and estimators) with and without explicit "
         "accountant (drawn from a menu of every tool x axis/keepdims/multi-quantile variant and eight estimators; the whole "
         "menu is also swept deterministically on every run), accountants that are plain or instances of user subclasses, "
-        "`raise` propagating through one or more blocks into a `try` or to the top; never re-entering an "
+        "`raise` propagating through one or more blocks into a `try` or to the top, the exception being a generic "
+        "one, a diffprivlib BudgetError raised directly, or a BudgetError provoked for real (an exhausted finite "
+        "accountant entered as a block whose body makes a library call; every cheap menu entry swept); never re-entering an "
         "open accountant. Non-trivial: depth >= 2, a default rewrite inside a block and an implicit call; distinct by "
         "the encoded program")
 
@@ -137,6 +139,16 @@ def _kinds(k):
 
 class Boom(Exception):
     pass
+
+
+BudgetError = dp.utils.BudgetError
+# what may propagate through blocks in a real run: the generic exception, or the library's own BudgetError (the model
+# does not distinguish exception types: __exit__ must restore for all of them)
+LEAVES = (Boom, BudgetError)
+# ["raise"] / ["raise", "boom"]: `raise Boom()`;  ["raise", "budget"]: `raise BudgetError(...)` directly;
+# ["raise", "refused", tool, kind]: a BudgetError provoked for real: `with z: tool(epsilon=..)` where z is a fresh finite
+# accountant (class `kind`) that is already exhausted, so the library call in z's own block is refused.  By the property
+# that sub-block is the identity on the default, so all three are the model's `R`.
 
 
 # ------------------------------------------------------------------ program representation
@@ -381,6 +393,16 @@ def run_real(items, spec):
                 elif k == "peek":
                     ev.append("k:" + ident(BA._default))
                 elif k == "raise":
+                    how = it[1] if len(it) > 1 else "boom"
+                    if how == "budget":
+                        raise BudgetError("raised by the program inside the block")
+                    if how == "refused":
+                        z = classes[it[3] % N_KINDS](epsilon=1e-3, delta=0)
+                        z.__dict__["_verif_tag"] = "z"
+                        z.spend(1e-3, 0)                        # exhausted before it is entered
+                        with z:
+                            TOOLS[it[2]][1](0.5, None)          # no accountant: resolves to z, which refuses
+                        raise AssertionError("the exhausted accountant z did not refuse the call")
                     raise Boom()
                 elif k == "block":
                     entered = [False]
@@ -396,14 +418,14 @@ def run_real(items, spec):
                     try:
                         go(it[1])
                         ev.append("t:ok")
-                    except Boom:
+                    except LEAVES:
                         ev.append("t:boom")
                     except AttributeError:
                         ev.append("t:attr")
         try:
             go(items)
             flag = "ok"
-        except Boom:
+        except LEAVES:
             flag = "boom"
         except AttributeError:
             flag = "attr"
@@ -481,7 +503,8 @@ def gen_program(r, max_depth, thorough):
         return r.choice(MODELS) if u < p_model else (r.choice(CHEAP) if u < p_model + 0.2 else r.choice(FAST))
     budget = [r.randint(6, 36)]
     sim = {"stack": [None], "fresh": 0}
-    stats = {"depth": 0, "rewrite_in_block": False, "implicit": False, "raise": False, "fresh_entered": False}
+    stats = {"depth": 0, "rewrite_in_block": False, "implicit": False, "raise": False, "fresh_entered": False,
+             "raise_budget": False}
     # lifetime: accountants nobody but the library references
     anon = r.sample(range(n_named), r.randint(1, 2)) if r.chance(0.5) else []
     hold_fresh = r.chance(0.5)
@@ -557,7 +580,15 @@ def gen_program(r, max_depth, thorough):
                 body, _ = gen_list(depth, open_ids)
                 items.append(["try", body])
             elif u < 0.94 and depth > 0:
-                items.append(["raise"])
+                v = r.u01()
+                if v < 0.35:
+                    items.append(["raise"])
+                elif v < 0.65:
+                    items.append(["raise", "budget"])
+                    stats["raise_budget"] = True
+                else:
+                    items.append(["raise", "refused", r.choice(FAST if r.chance(0.8) else CHEAP), r.randint(0, N_KINDS - 1)])
+                    stats["raise_budget"] = True
                 stats["raise"] = True
                 return items, True
             else:
@@ -621,6 +652,7 @@ def report(ctx, n_named, items, shrunk_from=None):
     spec = _spec(n_named)
     kind_names = ["BudgetAccountant", "subclass", "sub-subclass", "subclass overriding spend"]
     calls = _calls_of(items)
+    raises = _raises_of(items)
     life = ""
     if spec["anon"] or not spec["hold_fresh"]:
         life = ("; referenced by the library only (created inline, never stored): "
@@ -628,11 +660,28 @@ def report(ctx, n_named, items, shrunk_from=None):
                 + ("" if spec["hold_fresh"] else " and every lazily created default f<k>") + "; G = gc.collect()")
     ctx.violation(sig, f"{what}; program `{encode(inst, show_gc=True)}`; accountants n0.. are "
                        f"{[kind_names[k] for k in spec['kinds']]}{life}"
-                       + (f"; library calls in order: {calls}" if calls else ""),
-                  {"n_named": spec, "items": items, "program": encode(inst, show_gc=True), "calls": calls, "event_index": idx,
+                       + (f"; library calls in order: {calls}" if calls else "")
+                       + (f"; the R ops in order: {raises}" if raises else ""),
+                  {"n_named": spec, "raises": raises, "items": items, "program": encode(inst, show_gc=True), "calls": calls, "event_index": idx,
                    "expected": ev_o[max(0, idx - 3):idx + 2], "observed": ev_r[max(0, idx - 3):idx + 2],
                    "expected_flag": flag_o, "observed_flag": flag_r, "expected_final": fin_o, "observed_final": fin_r,
                    "shrunk_from": shrunk_from})
+
+
+def _raises_of(items):
+    out = []
+    for it in items:
+        if it[0] == "raise":
+            how = it[1] if len(it) > 1 else "boom"
+            out.append({"boom": "raise Boom()", "budget": "raise diffprivlib.utils.BudgetError(..)"}.get(how) or
+                       "with z: %s(epsilon=0.5) where z = accountant(epsilon=1e-3, delta=0), already exhausted "
+                       "-> BudgetError" % TOOLS[it[2]][0])
+            break
+        if it[0] == "block":
+            out += _raises_of(it[2])
+        elif it[0] == "try":
+            out += _raises_of(it[1])
+    return out
 
 
 def _calls_of(items):
@@ -663,6 +712,16 @@ def sweep_programs():
                               ["block", "n0", [["block", "n2", [["pop"]]], ["call", None, 0]]], ["call", None, 0]]))
             progs.append((k, [["block", "n1", [["try", [["block", "n0", [["raise"]]]]], ["call", None, 0],
                                                ["block", "n2", [["raise"]]]]]]))
+    # blocks left by the library's own BudgetError (raised directly; provoked by an exhausted accountant's own block):
+    # one level to a try, two levels to the top, caught in the outer block's body, with and without a prior default
+    refused = [["raise", "refused", t, t % N_KINDS] for t in CHEAP]
+    for j, rz in enumerate([["raise", "budget"]] + refused):
+        k = [j % N_KINDS, (j + 1) % N_KINDS, 0]
+        progs.append((k, [["set", "n2"], ["try", [["block", "n0", [["call", None, 0], rz]]]], ["call", None, 0]]))
+        progs.append((k, [["block", "n1", [["try", [["block", "n0", [rz]]]], ["call", None, 0]]], ["call", None, 0]]))
+        if j < 6:
+            progs.append((k, [["try", [rz]], ["call", None, 0], ["try", [["block", "n0", [["pop"], rz]]]], ["peek"]]))
+            progs.append((k, [["set", "n2"], ["block", "n0", [["block", "n1", [["set", "n0"], rz]]]]]))
     # lifetime: the displaced default is referenced by nobody but the library (anonymous set_default; the implicit
     # default of an un-accounted call; `with Cls():`), garbage collection inside and after the blocks
     for kind in range(N_KINDS):
@@ -786,6 +845,8 @@ def _check(ctx):
             depth_hist[stats["depth"]] = depth_hist.get(stats["depth"], 0) + 1
             if stats["raise"]:
                 ctx.count("programs_with_raise")
+            if stats["raise_budget"]:
+                ctx.count("programs_left_by_a_BudgetError")
             if stats["fresh_entered"]:
                 ctx.count("programs_entering_lazy_default")
             if stats["subclass"]:
